@@ -226,11 +226,11 @@ Section Em.
     | KLeaf (EClt c) => concat (concat (cparams c))
     end.
   (* structure of a node: everything except parameters *)
-  Inductive shape := SSum (k : nat) | SProd | SBern (v : nat) | SCat (v : nat) (cats : list Z)
+  Inductive shape := SSum | SProd | SBern (v : nat) | SCat (v : nat) (cats : list Z)
                    | SGauss (v : nat) | SClt (sc : list nat) (par : list (option nat)).
   Definition shape_of (n : enode) : shape * list nat * list nat :=
     (match nkind n with
-     | KSum ws => SSum (length ws)
+     | KSum _ => SSum
      | KProd => SProd
      | KLeaf (EBern v _) => SBern v
      | KLeaf (ECat v cats _) => SCat v cats
